@@ -262,10 +262,10 @@ ROUND8 = {
 }
 ROUND8['C01'] += " 'cidspace': the per-particle cell-id tables of the z-order classes are indexed by particle ids only (defect repaired: c5c0c8b); one buffer per CURRENT thread after NeighborCache.update (c20b8ce)."
 ROUND8['C03'] += " The convergence test skips equation-less sub-groups (defect repaired: 0a55d3f)."
-ROUND8['C06'] += " copy_properties refuses a range its source cannot fill (e28ff35). BOUNDED case, open finding: extract into a destination whose same-named property has another C type."
+ROUND8['C06'] += " copy_properties refuses a range its source cannot fill (e28ff35). Columns of another element type are converted, not reinterpreted (defect repaired: 8565e71; obligation on the type test + BOUNDED case for the converting branch)."
 ROUND8['C10'] += " _get_timestep restores the saved step whenever one is pending (defect repaired: b6b72f1, a round-one finding)."
 ROUND8['C15'] = " 'stubs': every call of the Python printf stand-in is one its signature accepts (defect repaired: 4581e7d)."
-ROUND8['C20'] = " Equations that read source data but are given no source are rejected (defect repaired: de852a8); a complete problem without a spare property is accepted (c321606)."
+ROUND8['C20'] = " Equations that read source data but are given no source are rejected (defect repaired: de852a8); a complete problem without a spare property is accepted (c321606); the start_idx / stop_idx names of every group and sub-group exist on each destination (defect repaired: 565f6f3)."
 for _c in CHECKS:
     if _c['id'] in ROUND8:
         _c['text'] = _c['text'] + ROUND8[_c['id']]
